@@ -785,12 +785,19 @@ class _ExecutorManagerThread(threading.Thread):
                     executor is not None
                     and len(self.processes) < executor._max_workers
                 ):
-                    warnings.warn(
-                        "A worker stopped while some jobs were given to the "
-                        "executor. This can be caused by a too short worker "
-                        "timeout or by a memory leak.",
-                        UserWarning,
-                    )
+                    try:
+                        warnings.warn(
+                            "A worker stopped while some jobs were given to "
+                            "the executor. This can be caused by a too short "
+                            "worker timeout or by a memory leak.",
+                            UserWarning,
+                        )
+                    except UserWarning as e:
+                        # Warnings can be turned into errors (-W error): such
+                        # an error cannot be reported from this thread and
+                        # must not kill it, or the pending jobs would never be
+                        # resolved. Log it and replace the worker.
+                        mp.util.info(f"{e}")
                     with executor._processes_management_lock:
                         executor._adjust_process_count()
                     executor = None
